@@ -112,6 +112,40 @@ def check_accessors(run, F, E):
         got = E.summary(fn)['returns']
         run.ob('C06.b', 'GuardControlT::pendingTransition() returns _pendingTransition', got == {('this', '_pendingTransition')},
                where=fn.pat, detail=sorted(got), key='pendingTransition() returns the wrong object')
+    # ... and what a control is bound to is the core itself, not a copy of it: the member its constructor binds the core parameter to
+    # is a reference, the parameter is taken by reference, and the context accessors hand out a reference (a control holding a private
+    # snapshot would still answer every query alike at construction time, but `&control.context()` would not be the machine's context)
+    for tk in ('ConstControlT', 'ControlT'):
+        for ctor in F.find(tk):
+            if ctor.kind != 'ctor' or ctor.d.get('copy') or ctor.d.get('move') or not ctor.params:
+                continue
+            bound = bound_members(F, ctor, 0)
+            rec = F.rec_by_name.get(ctor.cls) or {}
+            fields = {f.get('n'): f for f in rec.get('fields', [])}
+            p0 = ctor.params[0]
+            refs = [bool(fields.get(f, {}).get('ref')) for (_, f) in bound]
+            if not bound:
+                # held through a pointer: member initialised with the address of the parameter
+                for i in ctor.inits:
+                    x = ir.strip(i['e']) if i.get('e') is not None else None
+                    if x is not None and x['k'] == 'init' and len(x.get('es', [])) == 1:
+                        x = ir.strip(x['es'][0])
+                    if i['t'] == 'member' and x is not None and x['k'] == 'un' and x['op'] == '&':
+                        y = ir.strip(x['e'])
+                        if y['k'] == 'var' and y.get('vk') == 'param' and y.get('pi') == 0:
+                            bound.add((ctor.tkey, i['name']))
+                            refs.append('*' in (fields.get(i['name'], {}).get('ty') or '*'))
+                if not bound:
+                    raise AnalysisBroken('cannot tell what %s binds its core parameter to' % ctor.short)
+            ok = bool(bound) and all(refs) and ('&' in (p0.get('ty') or ''))
+            run.ob('C06.b', '%s views the machine core through a reference (member %s, parameter %s)' % (tk, sorted(f for _, f in bound), p0.get('n')), ok,
+                   where=ctor.pat, detail={'bound members': sorted(bound), 'reference': refs, 'parameter type': (p0.get('ty') or '')[-24:]},
+                   key='%s holds a copy of the machine core instead of a reference to it' % tk)
+        for fn in F.find(tk):
+            if fn.m in ('_', 'context') and not fn.params:
+                rty = fn.d.get('ret') or ''
+                run.ob('C06.b', '%s::%s() hands out a reference (%s)' % (tk, fn.m, rty[-20:]), rty.rstrip().endswith('&'), where=fn.pat,
+                       key='%s::%s() returns the context by value' % (tk, fn.m))
     # every control constructed by the root is bound to this->_core
     for tk in ('R_', 'RV_', 'RP_'):
         for fn in F.find(tk):
